@@ -94,6 +94,51 @@ def chk_modek(c):
         _close(got, want, 'modek_tprod(%s %r, k=%d, X%r)' % (c['kind'], M.shape, k, shp))
 
 
+def chk_tprod_struct(c):
+    """apply_tprod on structured tensors (canonical, Tucker, sums and outer products of them): expanding the result gives the dense
+    application of the Kronecker product to the expanded tensor; placeholders (None) act as the identity"""
+    from pyiga import tensor
+    rng = np.random.RandomState(c['seed'])
+    shp = tuple(c['shape'])
+    d = len(shp)
+
+    def canon(R):
+        return tensor.CanonicalTensor([rng.randint(-2, 3, size=(n, R)).astype(float) for n in shp])
+
+    def tucker(ranks):
+        return tensor.TuckerTensor([rng.randint(-2, 3, size=(n, r)).astype(float) for n, r in zip(shp, ranks)], rng.randint(-2, 3, size=tuple(ranks)).astype(float))
+    kind = c['tensor']
+    if kind == 'canonical':
+        X = canon(c['rank'])
+    elif kind == 'tucker':
+        X = tucker([1 + (c['rank'] + k) % 3 for k in range(d)])
+    elif kind == 'sum':
+        X = tensor.TensorSum(canon(c['rank']), tucker([2] * d), canon(1))
+    else:           # outer product of a vector (first axis) and a structured tensor over the remaining axes
+        rest = tensor.CanonicalTensor([rng.randint(-2, 3, size=(n, c['rank'])).astype(float) for n in shp[1:]])
+        X = tensor.TensorProd(rng.randint(-2, 3, size=shp[0]).astype(float), rest)
+    Xd = np.asarray(tensor.asarray(X), dtype=float)
+    assert Xd.shape == shp, 'expanded tensor has shape %r, declared %r' % (Xd.shape, shp)
+    mats, ops = [], []
+    for k, n in enumerate(shp):
+        if k in c.get('ident', []):
+            mats.append(np.eye(n)); ops.append(None)
+        else:
+            M = _mat(rng, c['rows'][k], n)
+            mats.append(M); ops.append(_as_kind(M, c['kinds'][k]))
+    if c.get('short') and kind in ('canonical', 'tucker', 'sum'):
+        # fewer operators than axes: the trailing axes are left alone
+        ops = ops[:-1]
+        mats[-1] = np.eye(shp[-1])
+    Y = tensor.apply_tprod(ops, X)
+    Yd = np.asarray(tensor.asarray(Y), dtype=float)
+    want = Xd
+    for k, M in enumerate(mats):
+        want = np.moveaxis(np.tensordot(M, want, axes=(1, k)), 0, k)
+    assert Yd.shape == want.shape, 'apply_tprod on a %s tensor: shape %r, expected %r' % (kind, Yd.shape, want.shape)
+    _close(Yd, want, 'apply_tprod(%r operators, %s tensor of shape %r)' % (c['kinds'], kind, shp))
+
+
 def chk_tprod(c):
     from pyiga import tensor
     import scipy.sparse
@@ -261,7 +306,7 @@ def chk_csr(c):
     _close(Q.dot(x), A[rows].dot(x) if len(rows) else np.zeros(0), 'CSRRowSubset%r' % (rows,))
 
 
-CHECKS = {'modek': chk_modek, 'kron': chk_kron, 'tprod': chk_tprod, 'block': chk_block, 'blockdiag': chk_blockdiag, 'simple': chk_simple, 'subspace': chk_subspace,
+CHECKS = {'modek': chk_modek, 'tprod_struct': chk_tprod_struct, 'kron': chk_kron, 'tprod': chk_tprod, 'block': chk_block, 'blockdiag': chk_blockdiag, 'simple': chk_simple, 'subspace': chk_subspace,
           'solver': chk_solver, 'kronsolver': chk_kronsolver, 'fastdiag': chk_fastdiag, 'csr': chk_csr}
 
 
@@ -290,6 +335,11 @@ def generate(tier, rng):
         for kind in kinds:
             seed += 1
             yield 'modek', {'seed': seed, 'shape': shp, 'kind': kind, 'm': 1 + (j + len(kind)) % 4}
+    for j, shp in enumerate(([3, 2], [2, 3, 4], [3, 3, 3], [2, 3, 2, 2])):
+        for t, tk in enumerate(('canonical', 'tucker', 'sum', 'prod')):
+            seed += 1
+            yield 'tprod_struct', {'seed': seed, 'shape': shp, 'tensor': tk, 'rank': 1 + (j + t) % 3, 'rows': [1 + (j + k + t) % 4 for k in range(len(shp))],
+                                   'kinds': [kinds[(j + k + t) % 3] for k in range(len(shp))], 'ident': [len(shp) - 1] if (j + t) % 3 == 0 else ([0] if (j + t) % 3 == 1 else []), 'short': bool((j + t) % 2)}
     # rectangular factors whose product is square (the dispatch must look at every factor, not at the overall shape), all kinds of factors
     for shapes in ([[2, 3], [3, 2]], [[4, 2], [1, 2]], [[2, 3], [3, 1], [2, 4]], [[3, 3], [2, 5], [5, 2]], [[1, 4], [4, 1]], [[2, 1], [1, 2], [3, 3]]):
         for ks in (['sparse'] * len(shapes), ['linop'] * len(shapes), [kinds[(k + 1) % 3] for k in range(len(shapes))], [kinds[(2 * k) % 3] for k in range(len(shapes))]):
